@@ -50,6 +50,7 @@ type worker[T any, JobType iJob[T]] struct {
 	waiters         *sync.Cond
 	tickers         []*time.Ticker
 	tickersDone     []chan struct{}
+	tickersExited   []chan struct{}
 	runGen          atomic.Uint32 // incremented when a run ends (Stop, Restart): event loops of earlier runs must not dispatch
 	mx              sync.RWMutex
 	ctx             context.Context
@@ -432,12 +433,16 @@ func (w *worker[T, JobType]) goRemoveIdleWorkers() {
 	ticker := time.NewTicker(interval)
 	// a stopped ticker never closes its channel: the remover needs its own exit signal
 	done := make(chan struct{})
+	exited := make(chan struct{})
 	w.mx.Lock()
 	w.tickers = append(w.tickers, ticker)
 	w.tickersDone = append(w.tickersDone, done)
+	w.tickersExited = append(w.tickersExited, exited)
 	w.mx.Unlock()
 
 	go func() {
+		defer close(exited)
+
 		for {
 			select {
 			case <-done:
@@ -510,7 +515,6 @@ func (w *worker[T, JobType]) goEventLoop() {
 
 func (w *worker[T, JobType]) stopTickers() {
 	w.mx.Lock()
-	defer w.mx.Unlock()
 
 	for _, ticker := range w.tickers {
 		ticker.Stop()
@@ -520,8 +524,19 @@ func (w *worker[T, JobType]) stopTickers() {
 		close(done)
 	}
 
+	exited := w.tickersExited
+
 	w.tickers = make([]*time.Ticker, 0)
 	w.tickersDone = nil
+	w.tickersExited = nil
+	w.mx.Unlock()
+
+	// Wait until the idle worker removers are gone. One that is still inside an iteration works on
+	// a snapshot of the idle list; pool nodes are recycled, so after a Restart it could find a node
+	// of its snapshot back in the list (as the new run's idle worker) and stop it.
+	for _, e := range exited {
+		<-e
+	}
 }
 
 func (w *worker[T, JobType]) closeChannels() {
